@@ -378,7 +378,7 @@ func tableRouting(r *core.Run) {
 	}
 	var jobs []job
 	nfill := 3
-	rts := []int{0, 1, 2, 4, 6, 8, 10, 12, 13, 16, 18}
+	rts := []int{0, 1, 2, 4, 6, 7, 8, 10, 12, 13, 16, 18}
 	lits := []int{0, 1}
 	if r.Thorough() {
 		nfill = 5
